@@ -381,3 +381,20 @@ def floors(tier, merged):
             ("negative_control_torn_files", c.get("control_torn", 0), 5),
             ("unserializable_cases", c.get("unserializable_cases", 0), 100),
             ("byte_prefix_points", c.get("byte_prefix_points", 0), 100)]
+
+
+def replay(case):
+    """Re-run one recorded crash point (or unserialisable-content case)."""
+    boot.boot()
+    if "point" not in case:
+        out = {"evaluations": 0, "keys": [], "violations": [], "samples": [], "counters": {}}
+        _unserializable(out, {"tier": "quick", "seed": 0})
+        return [v for v in out["violations"] if v["case"].get("op") == case.get("op") and v["case"].get("cls") == case.get("cls")]
+    world = World(case["cls"], case["cfg"], case["files"], case["steps"],
+                  missing=case.get("scenario") == "first_write_missing_file")
+    try:
+        how, _ = inject.run_in_child(world.scratch, world.action, tuple(case["point"]))
+        v = world.judge()
+        return [{"detail": f"crash point {case['point']} ({how}): {v}"}] if v else []
+    finally:
+        world.close()
